@@ -124,6 +124,9 @@ func c16GenDHCP4(r *sim.Rand, tier string, cs *sim.Case) {
 	cs.Knobs["mapfull"] = int64(r.Weighted(6, 2, 1, 1, 2))
 	if cs.Knobs["mapfull"] != 0 {
 		cs.Knobs["clients"] = int64(r.Range(2, 3))
+	} else if r.P(15) {
+		cs.Knobs["natfull"] = 1 // resource exhaustion: the CGNAT pool holds one port block
+		cs.Knobs["clients"] = int64(r.Range(2, 3))
 	}
 	nc := int(cs.Knobs["clients"])
 	for ci := 0; ci < nc; ci++ {
@@ -132,7 +135,11 @@ func c16GenDHCP4(r *sim.Rand, tier string, cs *sim.Case) {
 		if prefix >= 1 {
 			cs.Ops = append(cs.Ops, sim.Op{K: "discover", A: []int64{int64(ci)}})
 		}
-		if prefix >= 2 {
+		if prefix >= 2 && r.P(12) {
+			// the client's REQUEST and its RELEASE of the same address are in flight together
+			// (a retransmitted REQUEST overtaken by the RELEASE): handled by two handler goroutines
+			cs.Ops = append(cs.Ops, sim.Op{K: "reqrel", A: []int64{int64(ci)}})
+		} else if prefix >= 2 {
 			cs.Ops = append(cs.Ops, sim.Op{K: "request", A: []int64{int64(ci)}})
 			if r.P(40) {
 				// renewal through the relay with full option 82, without option 82
@@ -225,7 +232,13 @@ func c16RunDHCP4(c *sim.Ctx) {
 	if err != nil {
 		panic(err)
 	}
-	natMgr, err := nat.NewManager(nat.ManagerConfig{Interface: "sim0", PortsPerSubscriber: 1024, PortRangeStart: 1024, PortRangeEnd: 65535}, zap.NewNop())
+	pps := 1024
+	natFull := cs.Knob("natfull", 0) == 1
+	if natFull {
+		pps = 40000 // one port block per public address: the second session finds the CGNAT pool exhausted
+		c.S.Probe("nat_pool_single_block")
+	}
+	natMgr, err := nat.NewManager(nat.ManagerConfig{Interface: "sim0", PortsPerSubscriber: pps, PortRangeStart: 1024, PortRangeEnd: 65535}, zap.NewNop())
 	if err != nil {
 		panic(err)
 	}
@@ -387,6 +400,31 @@ func c16RunDHCP4(c *sim.Ctx) {
 			c.S.Join(send(build(cl, dhcpv4.MessageTypeRequest, dhcpv4.WithOption(dhcpv4.OptRequestedIPAddress(cl.offered)),
 				dhcpv4.WithOption(dhcpv4.OptServerIdentifier(net.IPv4(10, 7, 0, 1))))))
 			noteSessions()
+		case "reqrel":
+			if cl.offered == nil || cl.bound != nil {
+				continue
+			}
+			ip := cl.offered
+			rel := build(cl, dhcpv4.MessageTypeRelease)
+			rel.ClientIPAddr = ip
+			c.S.Fault("client.request-and-release-overlap")
+			c.S.Join(send(build(cl, dhcpv4.MessageTypeRequest, dhcpv4.WithOption(dhcpv4.OptRequestedIPAddress(ip)),
+				dhcpv4.WithOption(dhcpv4.OptServerIdentifier(net.IPv4(10, 7, 0, 1))))), send(rel))
+			noteSessions()
+			if cl.bound != nil {
+				// acknowledged; whether the RELEASE ended it afterwards is read off the lease table
+				has := false
+				if ls, ok := srv.VerifLeases(); ok {
+					for _, l := range ls {
+						if l.MAC == cl.mac.String() {
+							has = true
+						}
+					}
+				}
+				if !has {
+					cl.ended = "release"
+				}
+			}
 		case "renew":
 			if cl.bound == nil {
 				continue
@@ -507,7 +545,8 @@ func c16RunDHCP4(c *sim.Ctx) {
 	if n := qosMgr.GetSubscriberCount(); ((n < live && full != "vf_qi") || n > live+indet) && !c.Failed() {
 		c.Fail("qos-not-removed", "dhcp4/qos-count", "%d sessions are still up (%d more may be awaiting cleanup) but the QoS manager lists %d subscribers", live, indet, n)
 	}
-	if n := natMgr.GetAllocationCount(); (n < live || n > live+indet) && !c.Failed() {
+	// (with a single-block CGNAT pool a live session may legitimately have no NAT allocation)
+	if n := natMgr.GetAllocationCount(); ((n < live && !natFull) || n > live+indet) && !c.Failed() {
 		c.Fail("nat-not-released", "dhcp4/nat-count", "%d sessions are still up (%d more may be awaiting cleanup) but the NAT manager holds %d allocations", live, indet, n)
 	}
 	// address back in the pool: fresh clients can obtain every address not held by
